@@ -74,12 +74,16 @@ package actor
 //@ func (*Registry).Remove(pid)
 //@   props C10
 //@   requires r != nil && pid != nil
+//@   modifies mapof(r.lookup)
+//@   ghost at call delete#1: emit RegRemove(r, pid.ID)
+//@   emits RegRemove(r, pid.ID)
 //@   atunlock[C10.remove.only] forallS("Str", id, has(r.lookup, id) == (old(has(r.lookup, id)) && id != pid.ID))
 //@   atunlock[C10.remove.kept] forallS("Str", id, r.lookup[id] == old(r.lookup[id]))
 
 //@ func (*Registry).get(pid)
 //@   props C10
 //@   requires r != nil
+//@   modifies
 //@   ensures[C10.get.nil] pid == nil ==> isnil(result)
 //@   ensures[C10.get.hit] pid != nil && old(has(r.lookup, pid.ID)) ==> result == old(r.lookup[pid.ID])
 //@   ensures[C10.get.miss] pid != nil && !old(has(r.lookup, pid.ID)) ==> isnil(result)
@@ -87,12 +91,14 @@ package actor
 //@ func (*Registry).getByID(id)
 //@   props C10
 //@   requires r != nil
+//@   modifies
 //@   ensures[C10.getbyid.hit] old(has(r.lookup, id)) ==> result == old(r.lookup[id])
 //@   ensures[C10.getbyid.miss] !old(has(r.lookup, id)) ==> isnil(result)
 
 //@ func (*Registry).GetPID(kind, id)
 //@   props C10
 //@   requires r != nil
+//@   modifies
 //@   ghost at call getByID#1 before: assert[C10.getpid.key] arg1 == kind + pidSeparator + id
 //@   ghost at call getByID#1: got = result
 //@   ensures[C10.getpid.hit] !isnil(got) ==> result == pidof(got)
@@ -253,9 +259,30 @@ package actor
 //@   ensures fresh(result)
 
 //@ func (*process).cleanup(cancel)
-//@   props C06 C07 C13 C04 C08
+//@   props C06 C07 C13 C04 C08 C10 C12
 //@   requires procInv(p) && curproc == p && !isnil(p.context.receiver)
 //@   requires[C04.cleanup.live] phase == 1 || phase == 2
 //@   nopanic[C06.cleanup.nopanic]
 //@   modifies heap except private, p.context.message, phase, log, loglen
+//@   ghost at entry: lb = 0; log0 = log
+//@   ghost at call Delete#1: emit ChildUnlink(arg0, arg1)
+//@   ghost at call Children#1: lb = loglen; log0 = log
+//@   ghost at recv: emit Waited(ch)
+//@   ghost at call Stop#1 before: assert[C08.cleanup.each-child-poisoned-and-awaited] forall(k, 0 <= k && k < len(children) ==> isev(log[lb + 2*k], PoisonSent) && log[lb + 2*k].PoisonSent_pid == children[k] && log[lb + 2*k + 1] == Waited(ctxdone(log[lb + 2*k].PoisonSent_ctx)))
 //@   ensures[C04.cleanup.stopped] phase == 3
+//@   ensures[C07.cleanup.cancel-last] cancel != nil ==> log[loglen - 1] == Cancel(cancel)
+//@   ensures[C12.cleanup.stopped-event] isev(log[loglen - ite(cancel != nil, 1, 0) - 1], Broadcast) && log[loglen - ite(cancel != nil, 1, 0) - 1].Broadcast_e == p.context.engine &&
+//@        istype(log[loglen - ite(cancel != nil, 1, 0) - 1].Broadcast_msg, ActorStoppedEvent) && log[loglen - ite(cancel != nil, 1, 0) - 1].Broadcast_msg.(ActorStoppedEvent).PID == p.pid
+//@   ensures[C04.cleanup.stopped-delivered] isev(log[loglen - ite(cancel != nil, 1, 0) - 2], Deliver) && log[loglen - ite(cancel != nil, 1, 0) - 2].Deliver_ctx == p.context && istype(log[loglen - ite(cancel != nil, 1, 0) - 2].Deliver_msg, Stopped)
+//@   ensures[C10.cleanup.unregistered-after-inbox-stop] log[loglen - ite(cancel != nil, 1, 0) - 3] == RegRemove(p.context.engine.Registry, p.pid.ID)
+//@   ensures[C07.cleanup.inbox-stopped] log[loglen - ite(cancel != nil, 1, 0) - 4] == InboxStop(p.inbox)
+//@   ensures[C08.cleanup.children-first] loglen - ite(cancel != nil, 1, 0) - 4 >= entry(loglen) && forall(k, entry(loglen) <= k && k < loglen - ite(cancel != nil, 1, 0) - 4 ==> isev(log[k], ChildUnlink) || isev(log[k], PoisonSent) || isev(log[k], Waited))
+//@   ensures[C04.cleanup.log-prefix] forall(k, 0 <= k && k < entry(loglen) ==> log[k] == entry(log)[k])
+//@   loop 1
+//@     invariant rangeindex >= -1 && rangeindex < len(children)
+//@     invariant loglen == lb + 2 * (rangeindex + 1) && lb >= entry(loglen)
+//@     invariant forall(k, 0 <= k && k < lb ==> log[k] == log0[k])
+//@     invariant forall(k, 0 <= k && k < entry(loglen) ==> log0[k] == entry(log)[k])
+//@     invariant forall(k, entry(loglen) <= k && k < lb ==> isev(log0[k], ChildUnlink))
+//@     invariant forall(k, lb <= k && k < loglen ==> isev(log[k], PoisonSent) || isev(log[k], Waited))
+//@     invariant forall(k, 0 <= k && k <= rangeindex ==> isev(log[lb + 2*k], PoisonSent) && log[lb + 2*k].PoisonSent_pid == children[k] && log[lb + 2*k + 1] == Waited(ctxdone(log[lb + 2*k].PoisonSent_ctx)))
